@@ -83,6 +83,23 @@ theorem content_type_sent (enc : Encoder V) (o : Opts) (status : Nat) (p : Paylo
   have := (run_sent_stable _ (bodyOps enc o r.w.head p) (by rw [h2]; omega)).2
   simp only [Resp.sentContentType, this, h3, Option.bind, Hdr.get_set_same]
 
+/-- the renderer touches no header but Content-Type: the header set the client receives is the
+    one that was there before, with Content-Type replaced by the table entry — no stray header -/
+theorem headers_sent_exact (enc : Encoder V) (o : Opts) (status : Nat) (p : Payload V) (r : Resp)
+    (hf : r.Fresh) (hs : 100 ≤ status) :
+    (render enc o status p r).sent = some (Hdr.set r.hdr ctKey (contentType o p.kind)) := by
+  obtain ⟨h1, h2, h3⟩ := render_fresh_shape enc o status p r hf hs
+  rw [h1, (run_sent_stable _ (bodyOps enc o r.w.head p) (by rw [h2]; omega)).2, h3]
+
+/-- in particular it announces no Content-Length of its own (one that could disagree with the
+    body and make a real server cut the response short): the client sees the one the handler
+    had set before, if any -/
+theorem no_content_length_added (enc : Encoder V) (o : Opts) (status : Nat) (p : Payload V) (r : Resp)
+    (hf : r.Fresh) (hs : 100 ≤ status) :
+    (render enc o status p r).sent.bind (Hdr.get · b!"Content-Length") = Hdr.get r.hdr b!"Content-Length" := by
+  rw [headers_sent_exact enc o status p r hf hs]
+  exact Hdr.get_set_other _ _ _ _ (by decide)
+
 /-- … and for a renderer made by `Renderer(o)` that is the table with the configured charset -/
 theorem content_type_sent_configured (enc : Encoder V) (o : Opts) (status : Nat) (p : Payload V)
     (r : Resp) (hf : r.Fresh) (hs : 100 ≤ status) :
